@@ -897,7 +897,9 @@ class Emitter:
             o = '/' if bop == 'sdiv' else '%'
             fn = 'vf_sdiv' if bop == 'sdiv' else 'vf_srem'
             # CBMC flags INT_MIN/-1 as overflow; keep it in signed C arithmetic at 64 bits
-            return s.mask('((u64)(%s %s %s))' % (s.sx(a, t) if rt.bits<=64 else a, o, s.sx(b, t) if rt.bits<=64 else b), t)
+            if rt.bits > 64:
+                return s.mask('((u128)((i128)%s %s (i128)%s))' % (a, o, b), t)
+            return s.mask('((u64)(%s %s %s))' % (s.sx(a, t), o, s.sx(b, t)), t)
         if bop == 'shl':
             return s.mask('((%s)%s << %s)' % (ct if rt.bits >= 32 else 'u32', a, b), t) if rt.bits >= 32 else s.mask('vf_shl%d(%s,%s)' % (s.cbits(rt.bits), a, b), t)
         if bop == 'lshr':
